@@ -21,7 +21,7 @@ Atom = Tuple[str, bool, bool]  # (symbol, conjugated, transposed)
 Word = Tuple[Atom, ...]
 Expr = Dict[Word, Fraction]
 
-HERMITIAN = {"C"}
+HERMITIAN = {"C", "Ph"}  # Ph: the positive factor of a polar decomposition
 SYMMETRIC = {"G"}
 
 
